@@ -333,12 +333,34 @@ impl TCheck for C08 {
         }
         // one work in sixteen has a single compressible content larger than everything the
         // dispatch queue may hold at once (2 x workers clusters of 4 MiB) with one or two workers
+        // giants, two schedules each: one compressible content above 128 MiB (beyond every codec
+        // window), and two contents above 256 MiB for a single worker (anything that is spilled,
+        // recycled or sized per cluster meets its second user)
+        let giant_one = work == 21;
+        let giant_two = work == 37;
+        if giant_one || giant_two {
+            contents.truncate(3);
+            for k in 0..(if giant_two { 2 } else { 1 }) {
+                let len = if giant_two { (258usize << 20) + (k << 16) + 77 } else { (130usize << 20) + 12_345 };
+                let at = rng.usize_below(contents.len() + 1);
+                contents.insert(
+                    at,
+                    ContentSpec {
+                        bytes: Arc::new(gen::gen_bytes(&mut rng, 600 + k, len, Flavor::Constant)),
+                        hint: Hint::Yes,
+                        src: SrcKind::Cursor,
+                        pack: 1,
+                    },
+                );
+            }
+        }
+        let comp = if giant_one { Comp::Zstd(3) } else if giant_two { *rng.pick(&[Comp::Zstd(3), Comp::Lz4(3)]) } else { comp };
         let oversize = work % 64 == 13;
         // (a fast codec: the point is the size, not the compression)
         let comp = if oversize { *rng.pick(&[Comp::Lz4(3), Comp::Zstd(-5)]) } else { comp };
         // one work in sixteen does not set the worker-count knob and runs as on a one-CPU host
         let one_cpu = work % 16 == 3;
-        let workers = if oversize { 1 } else { rng.range(1, 15) };
+        let workers = if oversize || giant_two { 1 } else if giant_one { 2 } else { rng.range(1, 15) };
         if oversize {
             let len = (2 * workers as usize + 1) * (4 << 20) + rng.range(1, 100_000) as usize;
             let at = rng.usize_below(contents.len() + 1);
@@ -394,7 +416,7 @@ impl TCheck for C08 {
         if one_cpu {
             knobs.retain(|(k, _)| *k != "creator_workers");
         }
-        if big || oversize {
+        if big || oversize || giant_one || giant_two {
             // keep the big content in a cluster of its own size class
             knobs.retain(|(k, _)| *k != "cluster_max_size" && *k != "decode_chunk");
             knobs.push(("decode_chunk", 65536));
@@ -416,7 +438,7 @@ impl TCheck for C08 {
             dedup: false,
             hard_err_call,
         });
-        let desc = json!({"content_larger_than_the_whole_dispatch_queue": oversize, "one_cpu_host_no_worker_knob": one_cpu, "run_of_empty_compressible_contents": empty_run, "big_incompressible_content": big, "hard_input_error_at_read_call": hard_err_call, "comp": comp.name(), "contents": w.contents.iter().map(|c| format!("{}{}{}", c.bytes.len(), match c.hint {Hint::Yes=>"Y",Hint::No=>"N",Hint::Detect=>"D"}, match c.src {SrcKind::Cursor=>"c",SrcKind::File=>"f",SrcKind::FileRange=>"r",SrcKind::Sim=>"s",SrcKind::FilePeeked=>"p",SrcKind::FileRangeToEnd=>"e"})).collect::<Vec<_>>(),
+        let desc = json!({"giant_above_128_MiB": giant_one, "two_giants_above_256_MiB_one_worker": giant_two, "content_larger_than_the_whole_dispatch_queue": oversize, "one_cpu_host_no_worker_knob": one_cpu, "run_of_empty_compressible_contents": empty_run, "big_incompressible_content": big, "hard_input_error_at_read_call": hard_err_call, "comp": comp.name(), "contents": w.contents.iter().map(|c| format!("{}{}{}", c.bytes.len(), match c.hint {Hint::Yes=>"Y",Hint::No=>"N",Hint::Detect=>"D"}, match c.src {SrcKind::Cursor=>"c",SrcKind::File=>"f",SrcKind::FileRange=>"r",SrcKind::Sim=>"s",SrcKind::FilePeeked=>"p",SrcKind::FileRangeToEnd=>"e"})).collect::<Vec<_>>(),
                           "workers": workers, "cluster_max_blobs": max_blobs, "cluster_max_size": max_size});
         let w2 = Arc::clone(&w);
         Prepared {
@@ -431,7 +453,7 @@ impl TCheck for C08 {
             hard_fault: hard_err_call.is_some(),
             one_cpu,
             post: None,
-            max_scheds: None,
+            max_scheds: if giant_one || giant_two { Some(2) } else { None },
         }
     }
     fn history_oracle(&self, events: &[Event], _report: &BodyReport) -> Vec<String> {
